@@ -89,8 +89,9 @@ type camSetter interface{}
 
 // startTransport creates and starts a real transport on loopback. snapshot registers /resource.
 func startTransport(dir, pin string, snapshot bool, a *accessory.Accessory, as ...*accessory.Accessory) (*Transport, error) {
-	port := freePort()
-	cfg := hc.Config{StoragePath: dir, Pin: pin, Port: port}
+	// the OS chooses the port when the server binds (no window between choosing and binding); it is read back through
+	// the verif accessor
+	cfg := hc.Config{StoragePath: dir, Pin: pin}
 	t, err := hc.NewIPTransport(cfg, a, as...)
 	if err != nil {
 		return nil, err
